@@ -970,6 +970,12 @@ def replay(ctx: C.Ctx, doc: Dict[str, Any], from_corpus: bool = False) -> None:
                       "corpus" if from_corpus else "replay")
     elif "sample" in inp:
         run_samples(ctx)
+    elif "unpad" in inp:
+        from harness import c10_keys
+        c10_keys.replay_unpad(ctx, bytes.fromhex(inp["unpad"]))
+    elif "objkey" in inp:
+        from harness import c10_keys
+        c10_keys.replay_objkey(ctx, inp["objkey"])
 
 
 def model_check(ctx: C.Ctx, cases: List[Case], with_rc4: bool = True) -> None:
